@@ -51,7 +51,9 @@ ASSUMPTIONS = [
     "keyword names reserved by ApplicationError/CallResult (enc_algo, callee, callee_authid, callee_authrole, forward_for) are never used; with traceback_app the name `traceback` is not used by the workload and kwargs may gain exactly that key",
     "admitted normalisations: tuple == list, absent args/kwargs == empty, -0.0 == 0.0; JSON: no strings starting with U+0000, no NaN/inf/subnormal floats",
     "classes are registered under URIs uri.Pattern accepts ([a-z0-9][a-z0-9_-]* components or <name>); define() is never called against its contract (decorated class with explicit URI, undecorated without); at most one class per URI and side",
-    "grey zones accepted both ways: a decorated but not define()d class, also by inheritance of the decoration (decorated URI or runtime_error), an ApplicationError subclass that is also define()d (carried or registered URI), presence of `traceback` when traceback_app is on; an undecorated, not define()d subclass of a define()d class is an unregistered class (runtime_error)",
+    "an instance of ApplicationError or of a subclass carries the URI its raiser chose: the wire URI must equal exc.error whether or not the class is also decorated/define()d",
+    "chained scenarios: FRONT and MID register no classes (MID re-raises the generic ApplicationError it got), the two library-pre-registered URIs are not used as origin URIs there; the content of `traceback` is never asserted",
+    "grey zones accepted both ways: a decorated but not define()d class, also by inheritance of the decoration (decorated URI or runtime_error), presence of `traceback` when traceback_app is on; an undecorated, not define()d subclass of a define()d class is an unregistered class (runtime_error)",
     "every session starts with the library's own registrations wamp.error.invalid_payload -> SerializationError and wamp.error.payload_size_exceeded -> PayloadExceededError (taken from the documentation of those classes, restated in the oracle)",
     "'the constructor accepts the payload' is decided by the oracle calling cls(*args, **kwargs) itself with the forwarded payload; constructors are deterministic",
     "the stub's plain codecs (json, msgpack, cbor2, bjdata) are trusted to show what was on the wire",
@@ -62,6 +64,11 @@ DECIDING = {
     "wire_uri_registered": 20,
     "wire_uri_runtime_error": 20,
     "wire_uri_carried": 20,
+    "wire_uri_carried_differs_from_registered": 10,
+    "chain_end_to_end_compared": 100,
+    "chain_traceback_combinations": 4,
+    "chain_traceback_added_on_both_hops": 10,
+    "chain_serializer_legs": 12,
     "wire_kwargs_compared_nonempty": 20,
     "wire_traceback_seen": 10,
     "caller_registered_class_constructed": 20,
@@ -309,6 +316,44 @@ def gen_scenario(rng, cfg):
             "payload_kinds": sorted(gen.kinds)}
 
 
+def make_chain_cfg(rng, k):
+    return {"ser_front": SERS[k % 4], "ser_mid": SERS[(k // 4) % 4], "ser_backend": SERS[(k // 16 + k) % 4],
+            "transport_front": TRANSPORTS[k % 2], "transport_mid": TRANSPORTS[(k // 2) % 2], "transport_backend": TRANSPORTS[(k // 8 + k // 4) % 2],
+            "tb_backend": bool((k // 2) % 2) ^ bool(k % 2) if k % 3 else bool(k % 2), "tb_mid": bool(k % 2) if k % 3 else bool((k // 2) % 2),
+            "ue_raises": rng.random() < 0.3}
+
+
+def gen_chain(rng, cfg):
+    """A chained scenario: the BACKEND has the classes/registrations the callee of a pair scenario would have."""
+    base = gen_scenario(rng, {"traceback_app": True})
+    calls = []
+    for c in base["calls"]:
+        src = c["src"]
+        if src["what"] == "foreign" or src.get("uri") in RegModel().uri_cls:
+            continue
+        if src["what"] == "class" and base["classes"][src["cls"]]["kind"] == "appsub" and L.dec(src["args"])[0] in RegModel().uri_cls:
+            continue
+        if src["what"] == "class" and base["classes"][src["cls"]].get("fixed_uri") in RegModel().uri_cls:
+            continue
+        calls.append({"src": src, "mode": c["mode"], "style": rng.choice(["return", "await"])})
+    lib = set(RegModel().uri_cls)
+    defines = [d for d in base["defines"] if d[0] == "callee"]
+    # a class registered at the backend under a library-pre-registered URI would be re-created at MID as the library's class
+    bad = {d[1] for d in defines if (d[2] or base["classes"][d[1]]["deco"]) in lib}
+    calls = [c for c in calls if not (c["src"]["what"] == "class" and (c["src"]["cls"] in bad or any(
+        a in bad for a in _ancestors(c["src"]["cls"], base["classes"])) or base["classes"][c["src"]["cls"]]["deco"] in lib))]
+    steps, later = [], []
+    for i, c in enumerate(calls):
+        steps.append(["call", i])
+        if c["mode"] == "future":
+            later.append(i)
+        while later and rng.random() < 0.4:
+            steps.append(["fire", later.pop(rng.randrange(len(later)))])
+    rng.shuffle(later)
+    steps += [["fire", i] for i in later]
+    return {"type": "chain", "cfg": cfg, "classes": base["classes"], "defines": defines, "calls": calls, "steps": steps}
+
+
 # =================================================================================================
 # oracle: registry model + the two mappings
 # =================================================================================================
@@ -358,10 +403,8 @@ def expected_wire_uris(src, exc, callee_reg, class_specs):
     ci = src["cls"]
     cs = class_specs[ci]
     if cs["kind"] in ("appsub", "appfixed"):
-        s = {exc.error}
-        if ci in callee_reg.cls_uri:
-            s.add(callee_reg.cls_uri[ci])
-        return s, "app-error-subclass"
+        # an application error CARRIES the URI its raiser chose - also when its class is registered under another one
+        return {exc.error}, ("app-error-subclass-registered" if ci in callee_reg.cls_uri else "app-error-subclass")
     if ci in callee_reg.cls_uri:
         if cs["deco"]:
             return {callee_reg.cls_uri[ci]}, ("registered-decorated-in-decorated-family" if in_decorated_family(ci, class_specs)
@@ -498,7 +541,9 @@ def run_scenario(spec, R, fw, tag=""):
                      call=calls[i], wire=L.brief(m))
                 ok = False
             else:
-                if src["what"] in ("app", "typecheck") or cat == "app-error-subclass":
+                if src["what"] in ("app", "typecheck") or cat.startswith("app-error-subclass"):
+                    if cat == "app-error-subclass-registered" and uri != regs["callee"].cls_uri[src["cls"]]:
+                        R.count("wire_uri_carried_differs_from_registered")
                     R.count("wire_uri_carried")
                 elif uri == RUNTIME_ERROR and cat != "registered-define" and not cat.startswith("registered-decorated"):
                     R.count("wire_uri_runtime_error")
@@ -691,18 +736,164 @@ def run_scenario(spec, R, fw, tag=""):
         pair.teardown()
 
 
+def run_chain(spec, R, fw):
+    """FRONT -> MID -> BACKEND: the backend's error propagates uncaught through MID's endpoint to the front caller."""
+    from vf import c18_pair as P
+    from autobahn.wamp.exception import ApplicationError
+
+    cfg = spec["cfg"]
+    class_specs = spec["classes"]
+    env = {"allow_ctor": False}
+    classes = P.build_classes(class_specs, env)
+    ch = P.Chain(cfg)
+    reg = RegModel()
+    replay = {"scenario": spec, "fw": fw}
+    combo = "backend-%s+mid-%s" % ("on" if cfg["tb_backend"] else "off", "on" if cfg["tb_mid"] else "off")
+    facet = "traceback-already-in-kwargs" if cfg["tb_backend"] and cfg["tb_mid"] else "-"
+
+    def viol(key, what, **detail):
+        detail["cfg"] = cfg
+        R.violation(key, what, detail, replay)
+
+    try:
+        for side, ci, uri in spec["defines"]:
+            if uri is None:
+                ch.b.define(classes[ci])
+            else:
+                ch.b.define(classes[ci], uri)
+            reg.define(ci, class_specs, uri)
+        calls = spec["calls"]
+        excs, exp = {}, {}
+        for i, c in enumerate(calls):
+            e = P.build_exception(c["src"], classes, env)
+            excs[i] = e
+            kw = getattr(e, "kwargs", None)
+            exp[i] = (L.dec(L.enc(list(e.args))), L.dec(L.enc(dict(kw))) if isinstance(kw, dict) else {})
+        hop1, hop2, done = {}, {}, set()
+
+        def check_payload(where, i, m, allow_tb):
+            """URI/args/kwargs of ERROR m against the ORIGINAL exception of call i; -> has traceback"""
+            wargs, wkwargs = split_tail(m, 5)
+            d = payload_diff(wargs, exp[i][0]) if isinstance(wargs, list) else "not-a-list"
+            if d:
+                viol("C18/chain/%s/args/%s" % (where, d), "args %s differ from the original exception's %s" % (L.brief(wargs), L.brief(exp[i][0])),
+                     call=calls[i], wire=L.brief(m))
+            d, has_tb = kwargs_diff(wkwargs, exp[i][1], allow_tb)
+            if d:
+                viol("C18/chain/%s/kwargs/%s" % (where, d), "kwargs %s differ from the original exception's %s (traceback: %s)" % (
+                    L.brief(wkwargs), L.brief(exp[i][1]), combo), call=calls[i], wire=L.brief(m))
+            return has_tb
+
+        def handle(events):
+            while events:
+                nxt = []
+                for kind, i, m in events:
+                    if kind == "backend-error":
+                        if i in hop1:
+                            viol("C18/chain/backend/reply/multiple", "a second ERROR for the same invocation", wire=L.brief(m))
+                            continue
+                        hop1[i] = m
+                        uris, cat = expected_wire_uris(calls[i]["src"], excs[i], reg, class_specs)
+                        if m[4] not in uris:
+                            viol("C18/chain/backend/uri/%s" % cat, "backend ERROR URI %r, admissible %s" % (m[4], sorted(uris)), call=calls[i], wire=L.brief(m))
+                        check_payload("backend", i, m, cfg["tb_backend"])
+                        nxt += ch.forward_to_mid(i, m)
+                    else:
+                        if i in hop2:
+                            viol("C18/chain/mid/reply/multiple", "a second ERROR for the same invocation", wire=L.brief(m))
+                            continue
+                        hop2[i] = m
+                        if i not in hop1:
+                            viol("C18/chain/mid/reply/before-backend", "MID answered before the backend's error arrived", wire=L.brief(m))
+                            continue
+                        if m[1] != P.INVOCATION:
+                            viol("C18/chain/mid/reply/wrong-request-type", "request type %r" % (m[1],), wire=L.brief(m))
+                        if m[4] != hop1[i][4]:
+                            viol("C18/chain/mid/uri", "MID re-raised the error it got (%r) but sent URI %r" % (hop1[i][4], m[4]), call=calls[i], wire=L.brief(m))
+                        has_tb = check_payload("mid", i, m, cfg["tb_backend"] or cfg["tb_mid"])
+                        if has_tb and cfg["tb_backend"] and cfg["tb_mid"]:
+                            R.count("chain_traceback_added_on_both_hops")
+                        ch.forward_to_front(i, m)
+                        o = ch.outcomes[i]
+                        if len(o.results) != 1 or o.results[0][0] != "err":
+                            viol("C18/chain/front/%s/%s" % ("lost" if not o.results else "bad-completion", facet),
+                                 "front call completions after ERROR %r: %s" % (m[4], L.brief(o.results)), call=calls[i])
+                            continue
+                        err = o.results[0][1]
+                        wargs, wkwargs = split_tail(m, 5)
+                        if type(err) is not ApplicationError or err.error != hop1[i][4]:
+                            viol("C18/chain/front/class-or-uri", "front got %s with URI %r, expected ApplicationError %r" % (
+                                type(err).__name__, getattr(err, "error", None), hop1[i][4]), call=calls[i])
+                            continue
+                        got_kw = dict(err.kwargs)
+                        got_kw.pop("traceback", None)
+                        if payload_diff(list(err.args), exp[i][0]) or kwargs_diff(got_kw, exp[i][1], False)[0] or (
+                                "traceback" in err.kwargs and not (cfg["tb_backend"] or cfg["tb_mid"])):
+                            viol("C18/chain/front/payload", "front failure args %s kwargs %s, original %s %s (traceback: %s)" % (
+                                L.brief(list(err.args)), L.brief(err.kwargs), L.brief(exp[i][0]), L.brief(exp[i][1]), combo), call=calls[i])
+                            continue
+                        done.add(i)
+                        R.count("chain_end_to_end_compared")
+                        R.seen("chain_traceback_combinations", combo)
+                        R.seen("nontrivial", ["chain", fw, cfg["ser_front"], cfg["ser_mid"], cfg["ser_backend"], cfg["transport_front"],
+                                              cfg["transport_mid"], cfg["transport_backend"], combo, calls[i]["mode"], calls[i]["style"],
+                                              calls[i]["src"]["what"], bool(exp[i][0]), len(exp[i][1])])
+                events = nxt
+
+        issued = []
+        for step, i in spec["steps"]:
+            if any(ch.down(n) for n in ("front", "mid", "backend")):
+                break
+            if step == "call":
+                R.count("evaluations")
+                R.count("chain_calls")
+                issued.append(i)
+                handle(ch.issue(i, calls[i]["mode"], calls[i]["style"], excs[i]))
+            else:
+                handle(ch.fire(i))
+        handle(ch.pump())
+        for i in issued:
+            if i in done or i in ch.pending:
+                continue
+            if i not in hop1:
+                viol("C18/chain/backend/reply/none", "the backend endpoint raised but sent no ERROR (backend transport %s)" % (
+                    "closed by the library" if ch.down("backend") else "up"), call=calls[i])
+            elif i not in hop2:
+                viol("C18/chain/mid/reply/none/%s" % facet,
+                     "the backend's error %r reached MID's endpoint and propagated, but MID sent no ERROR for the front invocation: the front call "
+                     "never completes (traceback: %s; MID transport %s; incoming kwargs keys %s)" % (
+                         hop1[i][4], combo, "closed by the library" if ch.down("mid") else "up", sorted(split_tail(hop1[i], 5)[1])[:6]),
+                     call=calls[i], backend_error=L.brief(hop1[i]))
+        for who, m in ch.strays:
+            viol("C18/chain/%s/reply/not-error" % who, "%s sent %s" % (who, L.brief(m)[:200]))
+        for e in ch.escaped():
+            viol("C18/escaped-to-framework", "an exception escaped to the framework: %s" % e)
+        for leg in ("front", "mid", "backend"):
+            R.seen("chain_serializer_legs", leg + ":" + cfg["ser_" + leg])
+    finally:
+        ch.teardown()
+
+
 def run_shard(params, R):
     fw = params["fw"]
     for k in range(params["scenarios"]):
         rng = random.Random("c18-%d-%s-%d-%d" % (params["seed"], fw, params["part"], k))
-        cfg = make_cfg(rng, k + 3 * params["part"])
-        spec = gen_scenario(rng, cfg)
-        run_scenario(spec, R, fw)
+        if k % 4 == 3:
+            spec = gen_chain(rng, make_chain_cfg(rng, k // 4 + 5 * params["part"]))
+            run_chain(spec, R, fw)
+            R.count("chain_scenarios")
+        else:
+            cfg = make_cfg(rng, (k - k // 4) + 3 * params["part"])
+            spec = gen_scenario(rng, cfg)
+            run_scenario(spec, R, fw)
         R.count("scenarios")
 
 
 def replay(case, R):
-    run_scenario(case["scenario"], R, case.get("fw"))
+    if case["scenario"].get("type") == "chain":
+        run_chain(case["scenario"], R, case.get("fw"))
+    else:
+        run_scenario(case["scenario"], R, case.get("fw"))
 
 
 MANIFEST_ENTRY = {
